@@ -271,3 +271,195 @@ pub fn binding(_cex: &Value) -> Result<String, String> {
     Ok(_) => Err("JWS binding battery: all expectations met".to_owned()),
   }
 }
+
+/// C11: header policy decision table through every encoder and the decoder
+pub fn policy(_cex: &Value) -> Result<String, String> {
+  #[derive(Clone, Copy, Debug)]
+  struct H {
+    alg: bool,
+    b64: Option<bool>,
+    crit: Option<&'static [&'static str]>,
+    kid: bool,
+  }
+  fn build(h: H) -> JwsHeader {
+    let mut x = JwsHeader::new();
+    if h.alg {
+      x.set_alg(JwsAlgorithm::EdDSA);
+    }
+    if let Some(b) = h.b64 {
+      x.set_b64(b);
+    }
+    if let Some(c) = h.crit {
+      x.set_crit(c.iter().copied());
+    }
+    if h.kid {
+      x.set_kid("k");
+    }
+    x
+  }
+  /// reference policy (RFC 7515 4.1.11, RFC 7797 3 + 6)
+  fn allowed(p: Option<H>, u: Option<H>) -> bool {
+    if p.is_none() && u.is_none() {
+      return false;
+    }
+    if let Some(u) = u {
+      if u.crit.is_some() || u.b64.is_some() {
+        return false;
+      }
+      if let Some(p) = p {
+        if (p.alg && u.alg) || (p.kid && u.kid) {
+          return false;
+        }
+      }
+    }
+    if let Some(p) = p {
+      if let Some(c) = p.crit {
+        if c.is_empty() || c.iter().any(|n| *n != "b64") || p.b64.is_none() {
+          return false;
+        }
+      }
+      if p.b64.is_some() && p.crit.is_none() {
+        return false;
+      }
+    }
+    true
+  }
+  let r = no_panic(|| -> Vec<String> {
+    let mut log = Vec::new();
+    let crits: [Option<&'static [&'static str]>; 7] = [None, Some(&[]), Some(&["b64"]), Some(&["b64", "b64"]), Some(&["alg"]), Some(&["exp"]), Some(&["x-unknown"])];
+    let mut hs: Vec<Option<H>> = vec![None];
+    for alg in [false, true] {
+      for b64 in [None, Some(true), Some(false)] {
+        for crit in crits {
+          for kid in [false, true] {
+            hs.push(Some(H { alg, b64, crit, kid }));
+          }
+        }
+      }
+    }
+    let k = key("keyA", None);
+    for p in &hs {
+      for u in &hs {
+        // keep the table tractable: vary the unprotected side only on alg / b64 / crit-presence / kid
+        if let Some(u) = u {
+          if matches!(u.crit, Some(c) if c != ["b64"]) {
+            continue;
+          }
+        }
+        let want = allowed(*p, *u);
+        let (ph, uh) = (p.map(build), u.map(build));
+        let mut rec = Recipient::new();
+        if let Some(h) = &ph {
+          rec = rec.protected(h);
+        }
+        if let Some(h) = &uh {
+          rec = rec.unprotected(h);
+        }
+        let tag = format!("protected={p:?} unprotected={u:?}");
+        let fl = FlattenedJwsEncoder::new(b"payload", rec, false);
+        if fl.is_ok() != want {
+          log.push(format!("flattened encoder {} {tag}", if want { "rejects" } else { "accepts" }));
+        }
+        let ge = GeneralJwsEncoder::new(b"payload", rec, false);
+        if ge.is_ok() != want {
+          log.push(format!("general encoder {} {tag}", if want { "rejects" } else { "accepts" }));
+        }
+        if u.is_none() {
+          if let Some(h) = &ph {
+            let ce = CompactJwsEncoder::new_with_options(b"payload", h, CompactJwsEncodingOptions::NonDetached { charset_requirements: CharSet::Default });
+            if ce.is_ok() != want {
+              log.push(format!("compact encoder {} {tag}", if want { "rejects" } else { "accepts" }));
+            }
+          }
+        }
+        // decoder: hand-written flattened JSON so that rejected sets reach it too
+        let pj = ph.as_ref().map(|h| identity_jose::jwu::encode_b64(serde_json::to_vec(h).unwrap()));
+        let unencoded = p.and_then(|p| p.b64) == Some(false);
+        let payload = if unencoded { "payload".to_owned() } else { identity_jose::jwu::encode_b64(b"payload") };
+        let mut si = pj.clone().unwrap_or_default().into_bytes();
+        si.push(b'.');
+        si.extend_from_slice(payload.as_bytes());
+        let sig = identity_jose::jwu::encode_b64(toy_sign(&k, &si));
+        let mut obj = serde_json::Map::new();
+        obj.insert("payload".into(), payload.clone().into());
+        if let Some(pj) = &pj {
+          obj.insert("protected".into(), pj.clone().into());
+        }
+        if let Some(h) = &uh {
+          obj.insert("header".into(), serde_json::to_value(h).unwrap());
+        }
+        obj.insert("signature".into(), sig.into());
+        let text = serde_json::Value::Object(obj).to_string();
+        let dec = Decoder::new().decode_flattened_serialization(text.as_bytes(), None);
+        if dec.is_ok() != want {
+          log.push(format!("decoder {} {tag}", if want { "rejects" } else { "accepts" }));
+        }
+        if log.len() > 12 {
+          return log;
+        }
+      }
+    }
+    // every shared parameter name makes the header pair overlap
+    type Setter = fn(&mut JwsHeader);
+    let setters: Vec<(&str, Setter)> = vec![
+      ("typ", |h| h.set_typ("a")),
+      ("cty", |h| h.set_cty("a")),
+      ("nonce", |h| h.set_nonce("a")),
+      ("x5t", |h| h.set_x5t("a")),
+      ("x5t#S256", |h| h.set_x5t_s256("a")),
+      ("x5c", |h| h.set_x5c(["a"])),
+      ("url", |h| h.set_url(identity_core::common::Url::parse("https://a.example").unwrap())),
+      ("jku", |h| h.set_jku(identity_core::common::Url::parse("https://a.example").unwrap())),
+      ("x5u", |h| h.set_x5u(identity_core::common::Url::parse("https://a.example").unwrap())),
+      ("jwk", |h| h.set_jwk(key("k", None))),
+      ("custom", |h| {
+        let mut m = std::collections::BTreeMap::new();
+        m.insert("x".to_owned(), serde_json::Value::Bool(true));
+        h.set_custom(m)
+      }),
+    ];
+    for (i, (n1, s1)) in setters.iter().enumerate() {
+      for (j, (n2, s2)) in setters.iter().enumerate() {
+        let mut ph = build(H { alg: true, b64: None, crit: None, kid: false });
+        let mut uh = JwsHeader::new();
+        s1(&mut ph);
+        s2(&mut uh);
+        let got = FlattenedJwsEncoder::new(b"payload", Recipient::new().protected(&ph).unprotected(&uh), false).is_ok();
+        if got != (i != j) {
+          log.push(format!("protected {n1} + unprotected {n2}: {}", if got { "accepted" } else { "rejected" }));
+        }
+      }
+    }
+    // an extension that is present but not implemented must not be accepted as critical
+    {
+      let mut ph = build(H { alg: true, b64: None, crit: Some(&["x-unknown"]), kid: false });
+      let mut m = std::collections::BTreeMap::new();
+      m.insert("x-unknown".to_owned(), serde_json::Value::Bool(true));
+      ph.set_custom(m);
+      if CompactJwsEncoder::new(b"payload", &ph).is_ok() {
+        log.push("crit naming a present but unimplemented extension accepted".into());
+      }
+    }
+    // recipients disagreeing on b64
+    let a = build(H { alg: true, b64: None, crit: None, kid: false });
+    let b = build(H { alg: true, b64: Some(false), crit: Some(&["b64"]), kid: false });
+    if let Ok(e) = GeneralJwsEncoder::new(b"payload", Recipient::new().protected(&a), false) {
+      let e = e.set_signature(b"s");
+      if e.add_recipient(Recipient::new().protected(&b)).is_ok() {
+        log.push("general encoder accepts recipients that disagree on b64".into());
+      }
+    }
+    if let Ok(e) = GeneralJwsEncoder::new(b"payload", Recipient::new().protected(&a), false) {
+      let e = e.set_signature(b"s");
+      if e.add_recipient(Recipient::new().protected(&a)).is_err() {
+        log.push("general encoder rejects a second recipient with the same b64".into());
+      }
+    }
+    log
+  });
+  match r {
+    Err(msg) => Ok(format!("header policy battery panicked: {msg}")),
+    Ok(log) if !log.is_empty() => Ok(format!("{} deviations, e.g. {}", log.len(), log[..log.len().min(4)].join("; "))),
+    Ok(_) => Err("header policy battery: all expectations met".to_owned()),
+  }
+}
